@@ -24,6 +24,22 @@ func ZZ_C07_union_real_memdb() {
 		}
 	}
 	reverse := zzChoice("reverse", 2) == 1
+	// bounded scans (seed C07-5): the bound is the buffer's largest key - upper bound (exclusive) of a
+	// forward scan, lower bound (inclusive) of a reverse scan - so that leaves a discarded level or a
+	// flags-only write left without a value can sit right at the edge of the range
+	var bound []byte
+	if zzChoice("bounded", 2) == 1 {
+		o := m.order()
+		bound = m.keys[o[len(o)-1]]
+	}
+	wantView, wantSnap := view, snap.ents
+	if len(bound) > 0 {
+		if reverse {
+			wantView, wantSnap = zzInRange(view, bound, nil), zzInRange(snap.ents, bound, nil)
+		} else {
+			wantView, wantSnap = zzInRange(view, nil, bound), zzInRange(snap.ents, nil, bound)
+		}
+	}
 	for bi, db := range []MemBuffer{art, rbt} {
 		us := NewUnionStore(db, snap)
 		okGet := true
@@ -54,9 +70,9 @@ func ZZ_C07_union_real_memdb() {
 		var it Iterator
 		var err error
 		if reverse {
-			it, err = us.IterReverse(nil, nil)
+			it, err = us.IterReverse(nil, bound)
 		} else {
-			it, err = us.Iter(nil, nil)
+			it, err = us.Iter(nil, bound)
 		}
 		zzAssert(err == nil, "union-real.iter-opens")
 		out, err := zzDrain(it, len(view)+ns)
@@ -66,7 +82,7 @@ func ZZ_C07_union_real_memdb() {
 		} else {
 			zzAssert(okGet, "union-real.rbt.get-equals-overlay")
 		}
-		zzCheckMerged(out, view, snap.ents, reverse)
+		zzCheckMerged(out, wantView, wantSnap, reverse)
 	}
 }
 
